@@ -533,6 +533,11 @@ class Gen:
             for b in bl:
                 for vn, val in list(b.items()):
                     s_ = se.SUBFIELD_SERIALIZERS.get((m.name, b.name, vn))
+                    if s_ and isinstance(val, int) and not isinstance(val, bool) and val > 0xffffffff and self.rng.random() < 0.7:
+                        # 64-bit fields with a pretty form are timestamps in microseconds: plausible dates, whose pretty form
+                        # (float seconds) does not always pack back to the same integer
+                        b[vn] = self.rng.randrange(10 ** 15, 2 * 10 ** 15)
+                        continue
                     if s_ and isinstance(val, int) and not isinstance(val, bool) and self.rng.random() < 0.5:
                         # bias integer fields towards values that have a name (shown packed, e.g. PCode = AVATAR)
                         named = self.named_values(m, b, vn, s_)
@@ -1070,6 +1075,25 @@ def wire_cases(ctx):
                     yield "cross-layout", bytes(im.ser.serialize(m)).hex()
                 except Exception as e:  # noqa
                     yield "genfail:" + type(e).__name__, None
+    # timestamp family: every 64-bit variable that has a pretty form, over plausible microsecond timestamps (the pretty form
+    # goes through float seconds and does not always pack back to the same integer: the text must still round-trip)
+    for (mn, bn, vn), s_ in sorted(se.SUBFIELD_SERIALIZERS.items(), key=lambda kv: kv[0]):
+        tmpl = im.TD.get_template_by_name(mn)
+        if tmpl is None:
+            continue
+        try:
+            tv = tmpl.get_block(bn).get_variable(vn)
+        except Exception:
+            continue
+        if tv.type != im.MsgType.MVT_U64:
+            continue
+        for _ in range(ctx.pick(250, 3000)):
+            try:
+                m = im.decode(g.datagram(tmpl, flags=0, counts=[1] * len(tmpl.blocks)))
+                m[bn][0][vn] = rng.randrange(10 ** 15, 2 * 10 ** 15)
+                yield "timestamps", bytes(im.ser.serialize(m)).hex()
+            except Exception as e:  # noqa
+                yield "genfail:" + type(e).__name__, None
     per = ctx.pick(3, 25)
     keys = {k[0] for k in im.se.SUBFIELD_SERIALIZERS}
     for tmpl in im.templates:
